@@ -3,6 +3,7 @@ package checks
 import (
 	"encoding/json"
 	"fmt"
+	"strconv"
 
 	"verif/internal/gen"
 	"verif/internal/harness"
@@ -18,7 +19,7 @@ func init() {
 			"rendered canonically and in 3 (quick) / 6 (thorough) random spellings: 0..3 spaces at every position the grammar marks optional (inside brackets, around , : == != < <= > >= =~ " +
 			"&& ||, after !, inside ?( ) and parentheses, leading/trailing, around filter operands), ' vs \" quotes, + sign / leading zeros on index and slice integers, .* vs [*], .name vs " +
 			"['name'], omitted leading $; judged: identical values, or errors of the same type reported for the same step INDEX (each spelling's own step texts map the reported text back " +
-			"to an index) with the same expected/found; a second segment takes RAW name text (letters, blanks, non-ASCII, DEL / C1, raw C0 control characters, escape sequences valid in both quote styles) and puts the very same characters between single and between double quotes - at root, after `..`, in a multi-name list and inside a filter - on a document that contains the decoded name when the text decodes: both quote styles must give the same values or the same error type; non-trivial = the spelling differs from the canonical text and the path has >= 2 steps or a filter; distinct = distinct (spelled text, document)",
+			"to an index) with the same expected/found; a second segment takes RAW name text (letters, blanks, non-ASCII, DEL / C1, raw C0 control characters, escape sequences valid in both quote styles) and puts the very same characters between single and between double quotes - at root, after `..`, in a multi-name list and inside a filter - on a document that contains the decoded name when the text decodes: both quote styles must give the same values or the same error type; a third segment spells index, union, slice-bound and step integers of one and more digits (0..130, also negative) with `+`, one, two or three leading zeros and combinations, on arrays of up to 131 elements: every spelling must select what the plain decimal spelling selects; non-trivial = the spelling differs from the canonical text and the path has >= 2 steps or a filter; distinct = distinct (spelled text, document)",
 		Assumptions: []string{"the renderer's list of insignificant variations is the one in the property statement"},
 		Plan: func(tier string, seed int64) *harness.Plan {
 			sys := newSysCases("quick")
@@ -31,7 +32,11 @@ func init() {
 					hooksAlternate(k)
 					var d *diffCase
 					if k >= nMain {
-						runC18Quotes(c)
+						if k%4 == 3 {
+							runC18Ints(c)
+						} else {
+							runC18Quotes(c)
+						}
 						return
 					}
 					if k < sys.n()/2 {
@@ -48,7 +53,7 @@ func init() {
 					runC18(c, d, nSp)
 				},
 				Finish:   reportHooks,
-				Required: []string{"variation:spaces", "variation:quotes", "variation:int", "variation:rootless", "variation:leading-blank", "same:values", "same:error", "quotes:raw-text-values", "quotes:raw-text-error"},
+				Required: []string{"variation:spaces", "variation:quotes", "variation:int", "variation:rootless", "variation:leading-blank", "same:values", "same:error", "quotes:raw-text-values", "quotes:raw-text-error", "ints:spelled"},
 			}
 		},
 	})
@@ -203,5 +208,74 @@ func runC18Quotes(c *harness.Ctx) {
 		if t1, t2 := fmt.Sprintf("%T", o1.Err), fmt.Sprintf("%T", o2.Err); t1 != t2 {
 			c.Violation("error "+key, "the same name text fails with different error types between single and double quotes", det)
 		}
+	}
+}
+
+// runC18Ints: the same integer with an explicit + sign and / or leading zeros, values with one, two and three digits (a
+// leading zero must not switch the base: 010 is ten, 08 is eight).
+func runC18Ints(c *harness.Ctx) {
+	r := c.Rand()
+	n := []int{3, 9, 12, 20, 70, 131}[r.Intn(6)]
+	doc := array(n)
+	val := func() int64 {
+		switch r.Intn(4) {
+		case 0:
+			return int64(r.Intn(10))
+		case 1:
+			return int64(8 + r.Intn(12))
+		case 2:
+			return int64(r.Intn(131))
+		}
+		return -int64(r.Intn(n + 2))
+	}
+	spell := func(v int64) string {
+		neg := v < 0
+		if neg {
+			v = -v
+		}
+		digits := strconv.FormatInt(v, 10)
+		zeros := "000"[:r.Intn(4)]
+		switch {
+		case neg:
+			return "-" + zeros + digits
+		case r.Intn(3) == 0:
+			return "+" + zeros + digits
+		}
+		return zeros + digits
+	}
+	plain := func(v int64) string { return strconv.FormatInt(v, 10) }
+	a, b, st := val(), val(), int64(1+r.Intn(12))
+	if r.Intn(3) == 0 {
+		st = -st
+	}
+	type form struct{ canon, spelled string }
+	forms := []form{
+		{"$[" + plain(a) + "]", "$[" + spell(a) + "]"},
+		{"$[" + plain(a) + "," + plain(b) + "]", "$[" + spell(a) + "," + spell(b) + "]"},
+		{"$[" + plain(a) + ":" + plain(b) + "]", "$[" + spell(a) + ":" + spell(b) + "]"},
+		{"$[" + plain(a) + ":" + plain(b) + ":" + plain(st) + "]", "$[" + spell(a) + ":" + spell(b) + ":" + spell(st) + "]"},
+		{"$[::" + plain(st) + "]", "$[::" + spell(st) + "]"},
+		{"$..[" + plain(a) + "]", "$..[ " + spell(a) + " ]"},
+	}
+	f := forms[r.Intn(len(forms))]
+	if f.canon == f.spelled {
+		return
+	}
+	c.Cover("ints:spelled")
+	o1, o2 := lib.Retrieve(f.canon, doc), lib.Retrieve(f.spelled, doc)
+	key := fmt.Sprintf("ints %q vs %q on %d elements", f.canon, f.spelled, n)
+	det := map[string]interface{}{"plain": f.canon, "spelled": f.spelled, "array_length": n, "plain_outcome": short(o1.String(), 300), "spelled_outcome": short(o2.String(), 300)}
+	if o1.Err == nil {
+		c.NonTrivial(f.spelled + "#" + strconv.Itoa(n))
+	}
+	switch {
+	case o1.Panic != nil || o2.Panic != nil:
+		c.Violation("panic "+key, "Retrieve panicked on an integer spelling", det)
+	case (o1.Err == nil) != (o2.Err == nil):
+		c.Violation("outcome "+key, "one spelling of the integers succeeds and the other fails", det)
+	case o1.Err == nil && !lib.SameList(o1.Res, o2.Res):
+		c.Violation("values "+key, "an explicit + sign or leading zeros changed what the subscript selects", det)
+	case o1.Err != nil && fmt.Sprintf("%T", o1.Err) != fmt.Sprintf("%T", o2.Err):
+		c.Violation("error "+key, "two spellings of the same integers fail with different error types", det)
 	}
 }
